@@ -36,7 +36,6 @@ from models import interp as I
 from yaql.language import specs as yspecs
 from yaql.language import utils as yutils
 from yaql.language import yaqltypes as yt
-from yaql.language import contexts as ycontexts
 
 ID = 'C11'
 TITLE = 'evaluation order and laziness'
